@@ -436,15 +436,18 @@ class Engine:
             c = self.truthy(self.eval(node.test, st), st)
             outs = []
             c = z3.simplify(c)
+            narrow_t, narrow_f = _isinstance_narrowing(node.test)
             if not z3.is_false(c):
                 s1 = st.fork() if not z3.is_true(c) else st
                 if not z3.is_true(c):
                     s1.assume(c, "line %d: if-true" % node.lineno)
+                self._narrow(s1, narrow_t)
                 outs += self.exec_stmts(node.body, s1)
             if not z3.is_true(c):
                 s2 = st.fork() if not z3.is_false(c) else st
                 if not z3.is_false(c):
                     s2.assume(z3.Not(c), "line %d: if-false" % node.lineno)
+                self._narrow(s2, narrow_f)
                 outs += self.exec_stmts(node.orelse, s2)
             return outs
         if T is ast.Raise:
@@ -474,6 +477,18 @@ class Engine:
                 self.delete(tgt, st)
             return [(st, None)]
         raise Unsupported("statement %s (line %d)" % (T.__name__, node.lineno))
+
+    def _narrow(self, st, facts):
+        """flow-sensitive static class after an isinstance test (method resolution only; the dynamic fact is in
+        the path condition)"""
+        for name, clsname in facts:
+            sv = st.env.get(name)
+            ci = self.prog.find_class(clsname, self.cur_fn.cls if self.cur_fn else None)
+            if sv is None or ci is None or sv.k not in ("ref", "val"):
+                continue
+            cur = self.prog.classes.get(sv.cls) if sv.cls else None
+            if cur is None or (ci in cur.mro and False) or (cur in ci.mro):
+                st.env[name] = SV(sv.k, sv.t, cls=ci.qual, x=sv.x, wb=sv.wb)
 
     def _local_cond(self, st, extra_terms=()):
         """Condition under which the current point is reached, relative to function entry: the branch
@@ -827,6 +842,7 @@ class Engine:
         for b in bags:
             mark = serial_mark()
             news, cond, elem, bdefs = b.instantiate("it")
+            iter_order = b.last_order if len(bags) == 1 else None
             s = base.fork()
             s.binders = st.binders + news
             s.assume(cond)
@@ -863,7 +879,11 @@ class Engine:
                 for bag in produced:
                     aux = [x for x in consts_since([bag.cond, bag.defs] + sv_terms(bag.elem), mark)
                            if not any(x.eq(y) for y in bag.binders) and not any(x.eq(y) for y in bag.aux)]
-                    nb = Bag(bag.binders, bag.cond, bag.elem, bag.tag, bag.defs, bag.aux + aux)
+                    # order: the iteration order of the (single, ordered) iterated bag, provided each iteration
+                    # yields at most once on this path and nothing was yielded before the loop
+                    order = iter_order if (collect == "yields" and len(produced) == 1 and nbags0 == 0
+                                           and not st.binders) else None
+                    nb = Bag(bag.binders, bag.cond, bag.elem, bag.tag, bag.defs, bag.aux + aux, order=order)
                     if use_region:
                         bad = [n for n in _named_consts([nb.cond] + sv_terms(nb.elem)) if _is_region_name(n, rkeys)]
                         if bad:
@@ -1658,6 +1678,23 @@ class Engine:
         st.facts.append(Card(s2) >= 0)
         st.facts.append((Card(s) == 0) == (s == EmptySet))
         st.facts.append((Card(s2) == 0) == (s2 == EmptySet))
+
+
+def _isinstance_narrowing(test):
+    """([(name, cls)] holding when the test is true, [...] when it is false) for tests built from
+    isinstance(name, Cls), not, and, or"""
+    if isinstance(test, ast.Call) and isinstance(test.func, ast.Name) and test.func.id == "isinstance" \
+            and len(test.args) == 2 and isinstance(test.args[0], ast.Name) and isinstance(test.args[1], (ast.Name, ast.Attribute)):
+        return [(test.args[0].id, ast.unparse(test.args[1]))], []
+    if isinstance(test, ast.UnaryOp) and isinstance(test.op, ast.Not):
+        t, f = _isinstance_narrowing(test.operand)
+        return f, t
+    if isinstance(test, ast.BoolOp):
+        parts = [_isinstance_narrowing(v) for v in test.values]
+        if isinstance(test.op, ast.And):
+            return [x for t, _ in parts for x in t], []
+        return [], [x for _, f in parts for x in f]
+    return [], []
 
 
 class _RegionWrite(Exception):
